@@ -12,7 +12,7 @@
    members, every result / epoch / pending flag compared with this model evaluated in Coq.
    Statements only. *)
 From Coq Require Import NArith List.
-From MlsV Require Import Pending PendingProofs.
+From MlsV Require Import Pending PendingProofs Effects ProcessEffects EffectsInst MustHit MustHitProofs.
 Import ListNotations.
 Local Open Scope N_scope.
 
@@ -89,3 +89,16 @@ Print Assumptions C11_commit_only_for_current_epoch.
 Print Assumptions C11_stale_detached_rejected.
 Print Assumptions C11_detached_no_fork.
 Print Assumptions C11_frozen_after_reinit.
+
+(* from the source-extracted effect lists (regenerated on every run): on every successful run of
+   process_incoming_message / apply_pending_commit that installs the key schedule of a new epoch,
+   the pending commit is cleared - whatever the received commit contains (path or no path) *)
+Theorem C11_installing_an_epoch_clears_the_pending_commit :
+  must_hit installs_epoch clears_pending ev_incoming /\ must_hit installs_epoch clears_pending ev_apply_pending.
+Proof. exact (conj incoming_clears_pending apply_pending_clears_pending). Qed.
+Print Assumptions C11_installing_an_epoch_clears_the_pending_commit.
+
+Theorem C11_must_hit_checker_is_sound :
+  forall trig tg evs, must_hit_chk trig tg evs = true -> must_hit trig tg evs.
+Proof. exact must_hit_chk_sound. Qed.
+Print Assumptions C11_must_hit_checker_is_sound.
